@@ -1,10 +1,13 @@
 (* Correspondence obligations for C20: the model's output on the cases the implementation ran.
    format_model: px.NewFormatContext3(value, spec) + px.ToString2  vs  format_value (text or error class)
    radix_model : the rendering of an integer and px.New(c, Integer, text, radix)  vs  format_value / int_new
+   share_model : the same on values in which one container instance occurs at several positions
+                 (aliasing), with the recursion guard of ToString2  vs  format_value_g; every such case
+                 must also satisfy `lok []` (no cycle), the hypothesis of C20_sharing_invisible
    keys_model  : px.IsAssignable between the key types of format maps, and of key types against the
                  values' inferred types  vs  key_sub / key_accepts *)
 From Coq Require Import ZArith NArith Bool List.
-From PcoreV Require Import Model.Base Model.Format.
+From PcoreV Require Import Model.Base Model.Format Model.FormatShare.
 Import ListNotations.
 Open Scope Z_scope.
 
@@ -39,6 +42,16 @@ Definition format_check (c : fcase) : bool :=
   | None => false                         (* out of fuel: never (Properties/C20.v, format_total) *)
   end.
 Definition format_mismatches (cs : list fcase) : list N := failing format_check cs.
+
+Record scase := mkSCase { s_v : lvalue; s_spec : fspec; s_o : oracle; s_obs : obs }.
+
+Definition share_check (c : scase) : bool :=
+  lok [] (s_v c) &&
+  match format_value_g (s_o c) (s_v c) (s_spec c) with
+  | Some r => obs_eqb r (s_obs c)
+  | None => false
+  end.
+Definition share_mismatches (cs : list scase) : list N := failing share_check cs.
 
 Definition no_oracle : oracle := mkOracle [] [] [] [] [] [] [].
 
